@@ -39,3 +39,22 @@ func TestPortHolderRefuses(t *testing.T) {
 		t.Fatal("a plain listener could bind the held port")
 	}
 }
+
+func TestPortHoldersDistinct(t *testing.T) {
+	seen := map[string]bool{}
+	var hs []*PortHolder
+	for i := 0; i < 300; i++ {
+		h, err := NewPortHolder()
+		if err != nil {
+			t.Fatal(err)
+		}
+		if seen[h.Addr] {
+			t.Fatalf("port %s handed out twice", h.Addr)
+		}
+		seen[h.Addr] = true
+		hs = append(hs, h)
+	}
+	for _, h := range hs {
+		h.Release()
+	}
+}
